@@ -15,7 +15,7 @@ func init() {
 	register(&Prop{
 		ID:          "C15",
 		Title:       "Paged List RPCs enumerate every item exactly once",
-		Explanation: "Scope: every handler under pkg/trait that pages with a key token (discovered as the callers of a package-local capPageSize: electric ListModes, hail ListHails, parent ListChildren, publication ListPublications, vending ListConsumables and ListInventory) and waste ListWasteRecords. R15.1 the page size used is within [1, max] for every int32 request value or the handler has returned an error status first: capPageSize's table maps 0 to the default and anything above the maximum to the maximum, and negative sizes are rejected with InvalidArgument before use. R15.2 every failure of decodePageToken is an InvalidArgument status and the handler returns it before doing anything else. R15.3 request-controlled indexes are bounded by the length of the indexed slice (waste's index token). R15.4 progress without duplicates: the next token is the key of the last element of the page, the search predicate over the listing is strict on that same key field (or non-strict followed by an equality skip), and a handler that sorts the listing itself sorts ascending by that field. R15.5 the token is cleared when the page reaches the end and total_size is the length of the full listing. R15.6 the page is listing[next : min(next+size, len)]. R15.7 Collection.List is sorted by id on every path. Waste handler: count within [1,1000], token = start - count under full page and remaining records, page starts at the parsed token. Does NOT decide that the concatenation of pages equals the listing for all sizes (arithmetic over runtime lengths), nor that the model's listing is sorted by the key field (collection id = key is a runtime fact).",
+		Explanation: "Scope: every handler under pkg/trait that pages with a key token (discovered as the callers of a package-local capPageSize: electric ListModes, hail ListHails, parent ListChildren, publication ListPublications, vending ListConsumables and ListInventory) and waste ListWasteRecords. R15.1 the page size used is within [1, max] for every int32 request value or the handler has returned an error status first: capPageSize's table maps 0 to the default and anything above the maximum to the maximum, and negative sizes are rejected with InvalidArgument before use. R15.2 every failure of decodePageToken is an InvalidArgument status and the handler returns it before doing anything else. R15.3 request-controlled indexes are bounded by the length of the indexed slice (waste's index token). R15.4 progress without duplicates: the next token is the key of the last element of the page, the search predicate over the listing is strict on that same key field (or non-strict followed by an equality skip), and a handler that sorts the listing itself sorts ascending by that field. R15.5 the token is cleared when the page reaches the end and total_size is the length of the full listing. R15.6 the page is listing[next : min(next+size, len)]. R15.7 Collection.List is sorted by id on every path. R15.12 every error a paged handler answers with is a gRPC status (a status constructor, or a module function whose error returns are; the error of a parsing library handed back as it is is reported). Waste handler: count within [1,1000], token = start - count under full page and remaining records, page starts at the parsed token. Does NOT decide that the concatenation of pages equals the listing for all sizes (arithmetic over runtime lengths), nor that the model's listing is sorted by the key field (collection id = key is a runtime fact).",
 		Assumptions: []string{"sort.Search(n, f) returns an index in [0, n]; Collection.List is sorted by id (C01 R01.4)"},
 		Run:         runC15,
 		Controls: []Control{
@@ -28,6 +28,7 @@ func init() {
 			{Name: "remove-upper-cap", File: "pkg/trait/hailpb/pages.go", Old: "\tif pageSize > maxPageSize {\n\t\treturn maxPageSize\n\t}\n", New: "", Expect: "R15.1"},
 			{Name: "search-not-strict", File: "pkg/trait/publicationpb/model_server.go", Old: "\t\t\treturn sortedItems[i].Id > lastKey", New: "\t\t\treturn sortedItems[i].Id >= lastKey", Expect: "R15.4"},
 			{Name: "token-from-first-item", File: "pkg/trait/vendingpb/model_server.go", Old: "\t\t\tLastResourceName: sortedItems[upperBound-1].Consumable,", New: "\t\t\tLastResourceName: sortedItems[nextIndex].Consumable,", Expect: "R15.4"},
+			{Name: "waste-token-raw-error", File: "pkg/trait/wastepb/model_server.go", Old: "\t\t\treturn nil, status.Errorf(codes.InvalidArgument, \"bad page token: %v\", err)", New: "\t\t\treturn nil, err", Expect: "R15.12"},
 			{Name: "decode-error-internal", File: "pkg/trait/electricpb/pages.go", Old: "\t\tif err := proto.Unmarshal(tokenBytes, pageToken); err != nil {\n\t\t\treturn status.Errorf(codes.InvalidArgument, \"bad page token: %v\", err)", New: "\t\tif err := proto.Unmarshal(tokenBytes, pageToken); err != nil {\n\t\t\treturn status.Errorf(codes.Internal, \"bad page token: %v\", err)", Expect: "R15.2"},
 			{Name: "token-kept-at-end", File: "pkg/trait/electricpb/model_server.go", Old: "\t\tupperBound = len(sortedModes)\n\t\tpageToken = nil", New: "\t\tupperBound = len(sortedModes)", Expect: "R15.5"},
 			{Name: "total-size-of-page", File: "pkg/trait/parentpb/model_server.go", Old: "\t\tTotalSize: int32(len(all)),", New: "\t\tTotalSize: int32(pageSize),", Expect: "R15.5"},
@@ -55,6 +56,15 @@ func runC15(c *an.Ctx) {
 	}
 	r15pages(c)
 	r15waste(c)
+	var all []*ssa.Function
+	for _, h := range hs {
+		all = append(all, h.fn)
+	}
+	if w := mustFunc(c, "R15.12", "pkg/trait/wastepb", "ModelServer", "ListWasteRecords"); w != nil {
+		all = append(all, w)
+	}
+	r1512(c, all)
+	c.Min("R15.12", 7)
 	// the handlers that do not sort themselves binary-search the listing by `id > lastKey` (byte order): that is
 	// only right if Collection.List hands the items over in ascending byte order of their ids
 	r014(c, "R15.7")
@@ -1327,4 +1337,71 @@ func r1511(c *an.Ctx, rule string) {
 	}
 	c.Check(ok && n > 0, rule, name+"|the walk down the records reaches index 0", pos, fmt.Sprintf("%d bound(s) on the index admit 0", n),
 		"the loop over the stored records stops before index 0: the oldest record is never listed, so following next_page_token to the end yields total_size-1 records")
+}
+
+// r1512: whatever a paged handler answers a rejected request with is a gRPC status. A handler that hands back
+// the error of a parsing or decoding library as it is answers with something status.FromError does not
+// recognise (the client sees Unknown, or a bare Go error in process). Only errors whose origin is certain are
+// judged: a status constructor, a module function (followed), or a function of another library.
+func r1512(c *an.Ctx, hs []*ssa.Function) {
+	const rule = "R15.12"
+	for _, h := range hs {
+		bad := rawErrorReturned(c, h, 0, map[*ssa.Function]bool{})
+		c.Check(bad == "", rule, an.FuncName(h)+"|every error answered is a status", h.Pos(), "", "the handler answers a rejected request with an error that is not a gRPC status: "+bad)
+	}
+}
+
+func rawErrorReturned(c *an.Ctx, fn *ssa.Function, depth int, seen map[*ssa.Function]bool) string {
+	if seen[fn] || depth > 3 {
+		return ""
+	}
+	seen[fn] = true
+	for _, r := range an.Returns(fn) {
+		if len(r.Results) == 0 || !an.IsErrorType(r.Results[len(r.Results)-1].Type()) {
+			continue
+		}
+		errOp := r.Results[len(r.Results)-1]
+		if provablyNilAt(errOp, r) {
+			continue
+		}
+		for _, v := range an.ValuesAt(errOp) {
+			if an.IsNilConst(v) {
+				continue
+			}
+			if _, ok := an.StatusCode(v); ok {
+				continue
+			}
+			var call *ssa.Call
+			switch x := v.(type) {
+			case *ssa.Call:
+				call = x
+			case *ssa.Extract:
+				call, _ = x.Tuple.(*ssa.Call)
+			}
+			if call == nil {
+				continue // a parameter, a field, a global: origin not certain
+			}
+			callee := call.Call.StaticCallee()
+			if callee == nil {
+				continue // dynamic call
+			}
+			if an.InModule(callee) {
+				if bad := rawErrorReturned(c, callee, depth+1, seen); bad != "" {
+					return bad
+				}
+				continue
+			}
+			pkg := ""
+			if callee.Pkg != nil && callee.Pkg.Pkg != nil {
+				pkg = callee.Pkg.Pkg.Path()
+			} else if o := callee.Origin(); o != nil && o.Pkg != nil {
+				pkg = o.Pkg.Pkg.Path()
+			}
+			if strings.HasPrefix(pkg, "google.golang.org/grpc") || strings.HasPrefix(pkg, an.ModulePath) {
+				continue
+			}
+			return fmt.Sprintf("%s returns the error of %s as it is (%s)", an.FuncName(fn), an.CalleeName(call), c.Prog.Fset.Position(r.Pos()))
+		}
+	}
+	return ""
 }
